@@ -15,6 +15,24 @@ type Expect struct {
 	Misses int // binary: explicit not-found replies expected
 	Terms  int
 	Silent bool // no reply expected at all
+	// Why: for a refusal, the refusals that do not contradict the map's state (see refusalOf)
+	Why []string
+}
+
+// refusalOf: the refusals a client may be given when the command cannot be carried out. The
+// property does not pin the word (memcached itself says NOT_STORED in the text protocol where the
+// binary protocol says "key exists" / "key not found", and rend's chunked handler reports a
+// missing key as not found where memcached says not stored); what it does pin is that the reply
+// is what the map says: a refusal that asserts the opposite of the key's state - "exists" for a key
+// that is absent, "not found" for a key that is there - is not a reply that map would give.
+func refusalOf(kind string) []string {
+	switch kind {
+	case "delete", "touch":
+		return []string{"NOT_FOUND"} // the key is absent
+	case "add":
+		return []string{"EXISTS", "NOT_STORED"} // the key is present
+	}
+	return []string{"NOT_FOUND", "NOT_STORED"} // replace, append, prepend: the key is absent
 }
 
 // ApplyModel executes op on the model and derives the expected observation for the protocol.
@@ -26,7 +44,7 @@ func ApplyModel(m *refmodel.Model, proto string, op wire.Op) Expect {
 			}
 			return Expect{Class: "ok"}
 		}
-		return Expect{Class: "refused"}
+		return Expect{Class: "refused", Why: refusalOf(op.Kind)}
 	}
 	switch op.Kind {
 	case "set", "add", "replace":
@@ -113,6 +131,15 @@ func Diff(op wire.Op, e Expect, r wire.Reply) (clause, detail string) {
 	case "ok", "refused", "error":
 		if r.Class != e.Class {
 			return "outcome", fmt.Sprintf("expected %s, got %s", e.Class, r)
+		}
+		if e.Class == "refused" && len(e.Why) > 0 {
+			ok := false
+			for _, w := range e.Why {
+				ok = ok || r.Detail == w
+			}
+			if !ok {
+				return "refusal-kind", fmt.Sprintf("this %s cannot be carried out because of the key's state, which %v says; the reply was %s", op.Kind, e.Why, r)
+			}
 		}
 		if op.Kind == "stat" && r.Terms != 1 {
 			return "terminator", fmt.Sprintf("stat: %d terminators", r.Terms)
